@@ -26,7 +26,7 @@ const MNAMES: &[&str] = &["m", "mymac", "util_1", "_m", "doit", "M2"];
 const CALLNAMES: &[&str] = &["m", "mymac", "util_1", "_m", "doit", "M2", "größe", "тест", "é", "m"];
 const MVARS: &[&str] = &["v", "mv", "i", "n1", "_x", "lib", "Dsn", "é", "тест"];
 const OPEN_KW: &[&str] = &["data", "set", "run", "proc", "if", "then", "else", "do", "end", "by", "where", "select", "from", "output", "keep", "format", "input", "put", "length", "_null_", "and", "or", "not", "in", "eq", "ne"];
-const OPEN_SYM: &[&str] = &["=", "+", "-", "/", "<", ">", "<=", ">=", "^=", "~=", "||", "|", "!!", ",", ".", ":", "@", "#", "?", "**", "<>", "><", "=*", "{", "}", "[", "]", "&", "&&", "%", "$", "¬", "¬="];
+const OPEN_SYM: &[&str] = &["=", "+", "-", "/", "<", ">", "<=", ">=", "^=", "~=", "||", "|", "!!", ",", ".", ":", "@", "#", "?", "**", "<>", "><", "=*", "{", "}", "[", "]", "&", "&&", "%", "$", "¬", "¬=", "!", "¦", "¦¦", "∘", "^"];
 const WORDS: &[&str] = &["a", "abc", "x1", "some", "text", "v_1", "é", "data", "q2"];
 
 impl<'a> G<'a> {
@@ -130,7 +130,7 @@ impl<'a> G<'a> {
             0 => self.p("'abc'"), 1 => self.p("'it''s'"), 2 => self.p("'a;b,c)'"), 3 => self.p("\"plain\""), 4 => self.p("\"say \"\"hi\"\"\""),
             5 => { self.p("\"x"); self.mvar(true); self.p(" y\""); self.feat("strexpr-mvar"); }
             6 => { self.p("\"p "); if self.u.coin(1, 2) { self.user_call(1); } else { self.feat("strexpr-builtin"); self.d_inc(); self.builtin_call(1); self.depth -= 1; } self.p(" q\""); self.feat("strexpr-call"); }
-            _ => { let s = self.pick(&["'01jan2020'd", "'12:00't", "'1jan20:0:0'dt", "'my var'n", "'4a4B'x", "\"41,42\"X", "'1010'b", "\"&v\"d"]); self.p(s); }
+            _ => { let s = self.pick(&["'01jan2020'd", "'12:00't", "'1jan20:0:0'dt", "'my var'n", "'4a4B'x", "\"41,42\"X", "'1010'b", "\"&v\"d", "\"&v\"n", "\"&v\"t", "\"4&v\"x", "\"&v\"b", "\"&v\"dt", "\"&v\"DT", "\"100% sure\"", "\"a & b && c\"", "\"line1\nline2\"", "'a\nb'", "\"%m is 50% of &v\"", "''", "\"\""]); self.p(s); }
         }
     }
     fn mvar(&mut self, dots: bool) { self.feat("mvar"); let v = self.pick(MVARS); match self.u.below(if dots { 6 } else { 5 }) { 0 | 1 => { self.p("&"); self.p(v); } 2 => { self.p("&"); self.p(v); self.p("."); } 3 => { self.p("&&"); self.p(v); self.p("&i"); } 4 => { self.p("&&&"); self.p(v); } _ => { self.p("&"); self.p(v); self.p("&n1.."); } } }
@@ -173,8 +173,8 @@ impl<'a> G<'a> {
         for _ in 0..n {
             match if self.depth > 5 { self.u.below(3) } else { self.u.below(11) } {
                 0 | 1 => { let w = self.pick(WORDS); self.p(w); self.tp(); }
-                2 => { self.p(" "); let w = self.pick(WORDS); self.p(w); self.tp(); }
-                3 => self.mvar(true),
+                2 => { let ws = self.pick(&[" ", " ", "\n", "\t"]); self.p(ws); let w = self.pick(WORDS); self.p(w); self.tp(); }
+                3 => { match self.u.below(8) { 0 => { self.feat("macro-comment-in-arg"); self.p("%*c,=);"); } 1 => { self.feat("literal-percent"); let w = self.pick(&["50% ", "% ", "a%\n"]); self.p(w); } _ => self.mvar(true) } }
                 4 => { self.feat("nested-parens"); self.gopen(); let n = 1 + self.u.below(4);
                     for _ in 0..n { match self.u.below(8) {
                         0 => { let w = self.pick(WORDS); self.p(w); self.tp(); }
@@ -227,7 +227,7 @@ impl<'a> G<'a> {
         let st = self.out.len();
         let n = self.u.below(5);
         for _ in 0..n {
-            match self.u.below(9) {
+            match self.u.below(10) {
                 0 | 1 => { let w = self.pick(WORDS); self.p(w); self.tp(); }
                 2 => self.p(" "),
                 3 => { self.feat("str-pct-quote"); let q = self.pick(&["%'", "%\"", "%%", "%(", "%)"]); self.p(q); }
@@ -235,6 +235,7 @@ impl<'a> G<'a> {
                 5 => { self.mark(";", MK::Masked); }
                 6 => { self.gopen(); self.p("in"); self.tp(); self.mark(",", MK::Masked); self.p("ner"); self.tp(); self.gclose(); }
                 7 => { if nr { self.p("&amp %mac"); } else { self.mvar(true); } }
+                8 => { self.feat("str-inner-tokens"); match self.u.below(6) { 0 => self.p("'q;' "), 1 => self.p("\"r,\" "), 2 => self.p("/"), 3 => self.p("/*c,)*/"), 4 => self.p("\n"), _ => { if nr { self.p("%"); self.p(" "); } else { self.d_inc(); self.user_call(2); self.depth -= 1; if !self.out.ends_with(')') { self.p(" w"); } } } } }
                 _ => { self.mark("=", MK::Masked); }
             }
         }
@@ -285,9 +286,10 @@ impl<'a> G<'a> {
     fn text_expr(&mut self) { // semi-terminated macro text expression
         let n = self.u.below(5);
         for i in 0..n {
-            if i > 0 && self.u.coin(1, 2) { self.p(" "); }
+            if i > 0 && self.u.coin(1, 2) { let ws = self.pick(&[" ", " ", "\n", " \n "]); self.p(ws); }
             match if self.depth > 5 { self.u.below(3) } else { self.u.below(10) } {
-                0 | 1 => { let w = self.pick(WORDS); self.p(w); }
+                0 => { let w = self.pick(WORDS); self.p(w); }
+                1 => { if self.u.coin(1, 4) { self.feat("literal-percent"); self.p("50% "); } else { let w = self.pick(WORDS); self.p(w); } }
                 2 => { let s = self.pick(&["1", "=", "+", ",", "(z)", "/", "a=b", "%", "&", "* x", "-"]); self.p(s); self.p(" "); }
                 3 => self.mvar(true),
                 4 => { self.user_call(0); if !self.out.ends_with(')') { self.p(" w"); } }
